@@ -13,7 +13,7 @@ import (
 func init() {
 	register(&core.Rule{ID: "C05.7", Prop: "C05", MinSites: 3,
 		Desc: "publish before start: in the start-up functions no load-balancer registration (a plain append to the loop list) and no write to an engine field is reachable after a loop goroutine was spawned on engine.concurrency, loop back edges included; a running loop's callback may already use Engine.CountConnections/Register, which read that list without synchronisation (enumerated exception: eng.ingress, read only by stop/close after start-up and by the ticker spawned after it)",
-		Run: runC05_7})
+		Run:  runC05_7})
 }
 
 func runC05_7(c *core.Ctx) {
